@@ -8,3 +8,9 @@ META["C08"] = {
     "note": "Trusts the 10-line reference matcher and the documented pattern-file format; names without empty or wildcard components.",
     "technique": "property-based testing (rapid) + bounded-exhaustive enumeration against a reference model",
 }
+
+META["C06"] = {
+    "text": "parseConfig is compared, as a set, with an independent set-comprehension model of the documented defaults, validity rules and include/exclude semantics on randomly constructed Config messages (incl. entries with omitted fields) and on the enumerated space of version/protocol/stream-type subsets x all 3^7 flag assignments; plus model-free validity of every returned case and metamorphic relations. Exploration: sampled, except the enumerated flag sub-space in the thorough tier.",
+    "note": "Trusts the ~150-line reference model (written from docs/config.proto); tolerates rejection of individually unsatisfiable entries; goes through the YAML parser.",
+    "technique": "property-based testing (rapid) against a reference model + bounded-exhaustive enumeration + metamorphic relations",
+}
